@@ -67,6 +67,27 @@ func c16Build(c c16Case) []byte {
 		return b
 	}
 	pad := strings.Repeat(" ", c.Pad)
+	if c.Shape >= 9 {
+		// ONE token of Depth units inside a flat array
+		unit := []string{"\\n", "\\u00e9", " ", "7", "ab"}[c.Shape-9]
+		open, closeTok := "[\"", "\"]"
+		switch c.Shape {
+		case 11:
+			open, closeTok = "[1,", "2]"
+		case 12:
+			open, closeTok = "[1", "]"
+		}
+		var sb strings.Builder
+		sb.Grow(c.Depth*len(unit) + 8)
+		sb.WriteString(open)
+		for i := 0; i < c.Depth; i++ {
+			sb.WriteString(unit)
+		}
+		if c.Closed {
+			sb.WriteString(closeTok)
+		}
+		return []byte(sb.String())
+	}
 	if c16Wide(c.Shape) {
 		unit := []string{"\"k\":{}," + pad, "[]," + pad, "\"k\":1," + pad}[c.Shape-6]
 		open, last := "{", "\"z\":1}"
@@ -325,7 +346,7 @@ func TestVerif_C16(t *testing.T) {
 		if (i+3)%nsh != sh || t.Failed() {
 			continue
 		}
-		for shape := 6; shape <= 8; shape++ {
+		for shape := 6; shape <= 13; shape++ {
 			for _, closed := range []bool{true, false} {
 				c := c16Case{Shape: shape, Depth: n, Closed: closed, Limit: []uint32{0, 1}[i/3], Via: []string{"json", "detect", "geo"}[i%3]}
 				r := c16Check(c)
